@@ -383,6 +383,7 @@ def content_tables(sk, case):
         # Model/Pipeline.v (shared, read-only) predates C04-2: ipc::Channel<T> is not a channel there
         old_chan = any(q["ty"]["k"] == "path" and q["ty"]["name"] == "Channel" and q["ty"]["segs"] == ["ipc"] for q in fns[n].get("params", []))
         c_ok.append(not any(names_of(t) & mapped for t in tys) and not fns[n].get("attr_args") and not old_chan)
+    # the table holds one fn per command id: definitions of a repeated name all have the same signature (c13_gen.add_dup_commands)
     return structs, s_ok, cmds, c_ok
 
 
@@ -837,9 +838,11 @@ def build_group(case, shape, mode, rng, nbase, nnoise, ntrans, transforms=None):
         g["variants"]["noise%d" % k] = (vc, make_runs(vc, mode, [()], "noise%d" % k))
     sk0 = G.Skeleton(case)
     dup, dupev = bool(sk0.dup_names()), bool(sk0.dup_events())
-    default = ["reorder", "movedef"] if dup else (["reorder", "move", "split", "merge"] + (["reverse"] if dupev else []))
+    dupcmd = bool(G.dup_command_names(case))
+    default = ["reorder", "movedef"] if dup else (["reorder", "move", "split", "merge"] + (["reverse"] if dupev else []) +
+                                                  (["adjdup"] if dupcmd else []))
     for name in (transforms if transforms is not None else default):
-        if dup and name not in ("reorder", "movedef", "reverse"):
+        if dup and name not in ("reorder", "movedef", "reverse", "adjdup"):
             continue            # merging two same-named definitions into one module is not valid Rust
         vc = G.TRANSFORMS[name](rng, case)
         if G.Skeleton(vc).dup_names() and not dup:
